@@ -30,8 +30,12 @@ type c14Case struct {
 	// Real search leg: polls the real search executes before the GUI goes quiet
 	// (and, for ponder, before the ponderhit), so that the search is parked
 	// somewhere inside its tree when the deadline is computed and when it fires.
-	RunPolls int    `json:"run_polls,omitempty"`
-	FEN      string `json:"fen,omitempty"`
+	// Extra: further go arguments that must not change the time budget
+	// (a depth or node limit the search will not reach before the clock does).
+	Extra      string `json:"extra,omitempty"`
+	ExtraFirst bool   `json:"extra_first,omitempty"`
+	RunPolls   int    `json:"run_polls,omitempty"`
+	FEN        string `json:"fen,omitempty"`
 }
 
 func (c c14Case) goLine() string {
@@ -52,6 +56,12 @@ func (c c14Case) goLine() string {
 		if c.HasInc {
 			fmt.Fprintf(&sb, " winc %d binc %d", wi, bi)
 		}
+	}
+	if c.Extra != "" {
+		if c.ExtraFirst {
+			return "go " + c.Extra + strings.TrimPrefix(sb.String(), "go")
+		}
+		sb.WriteString(" " + c.Extra)
 	}
 	return sb.String()
 }
@@ -144,6 +154,10 @@ func genC14Cases(rng *rand.Rand, n int, boundary []int64) []c14Case {
 				base.PonderOff = true
 				base.HitAfter = 1 + rng.Int64N(max(base.Own, base.MoveTime)*1000/2+1)
 			}
+		}
+		if rng.IntN(5) == 0 {
+			base.Extra = pick(rng, []string{"depth 64", "depth 60", "nodes 2000000000", "depth 63 nodes 1000000000"})
+			base.ExtraFirst = rng.IntN(2) == 0
 		}
 		if rng.IntN(3) == 0 {
 			// isready arriving while the search runs must not move the deadline
